@@ -42,7 +42,8 @@ ASSUMPTIONS = [
     "token alphabets per verb = tokens of the verb's seed commands + a generic set (defined/undefined/wrong-kind "
     "names, absolute/relative/invalid paths, numbers, malformed hex, quoted string, reserved connectives, a "
     "comparison); listed in bounds",
-    "non-termination is detected by a CPU-time limit of 0.5 s per build (ITIMER_PROF; a build takes about 1 ms); "
+    "non-termination is detected by a limit of 0.5 s user-mode CPU time per build (ITIMER_VIRTUAL; a build takes "
+    "about 1 ms), confirmed by repeating the interrupted build once under the same limit; "
     "the engine's wall-clock backstop (hang_s) stays armed behind it",
     "a ValueError is accepted only when it is raised inside one of building.Convert2* (the literal converters) or is "
     "int()/float()/complex() rejecting a script literal ('invalid literal', 'could not convert'); "
@@ -70,6 +71,8 @@ framer ff be active first fa
 """
 
 GENERIC = ["", "fa", "fx", "fm", "lg", "zz", "me", ".sx", "sm", "a..b", "2", "0x1g", '"q s"', "in", "of", "is", "=="]
+
+CORE = ["fa", "lg", "zz", "me", ".sx", "a..b", "2", "of"]
 
 SEEDS = {
     "load": ["load zz.flo"],
@@ -100,7 +103,7 @@ SEEDS = {
             "set a b in goal.q from a b in .sm"],
     "aux": ["aux fx", "aux fm as mine", "aux fm as cl via me", "aux fm as c2 via n of frame",
             "aux fx if .sx == 5 and not elapsed >= 2", "aux fx if fx is done"],
-    "rear": ["rear fm as mine be aux in frame fa", "rear fm in frame fa"],
+    "rear": ["rear fm as mine be aux in frame fa", "rear fm in frame fa", "rear fm as c1 be active"],
     "raze": ["raze all in frame fa", "raze last", "raze first in frame"],
     "go": ["go fa", "go next if .sx == 5 +- 1", "go fa if not a in .sm >= b in .sm and elapsed >= goal",
            "go me if elapsed re me >= 2", "go fa if fx is done", "go fa if aux fx in frame fa in framer ff is done",
@@ -277,12 +280,17 @@ def h_clones(sym, m):
 def obligations(tier):
     quick = tier == "quick"
     out = []
+    union = []
     for verb in VERBS:
-        alpha = alphabet(verb)
+        for t in alphabet(verb):
+            if t not in union:
+                union.append(t)
+    for verb in VERBS:
+        alpha = alphabet(verb) if quick else union
         chunks, cur, size = [], [], 0
         for i, toks in enumerate(SEED_TOKENS[verb]):
             cost = (2 * len(toks) - 1) * len(alpha)
-            if cur and size + cost > 2500:
+            if cur and size + cost > (2500 if quick else 6000):
                 chunks.append(cur)
                 cur, size = [], 0
             cur.append(i)
@@ -291,27 +299,28 @@ def obligations(tier):
         for ci, chunk in enumerate(chunks):
             name = "mutate/" + verb + ("" if len(chunks) == 1 else "/%d" % ci)
             out.append(Ob(name, h_mutate, dict(verb=verb, alpha=alpha, seeds=chunk),
-                          budget=300 if quick else 600, per_path=10, hang_s=20, max_fail_keys=12,
+                          budget=300 if quick else 600, per_path=60, hang_s=60, max_fail_keys=12,
                           bounds=dict(seeds=[SEEDS[verb][i] for i in chunk], alphabet=alpha,
                                       mutations="1 of replace/insert/delete/truncate at any position")))
     for verb in VERBS:
         alpha = alphabet(verb)
         if quick:
             k, a = 2, [""] + alpha
-        else:
-            k, a = 3, [""] + alpha[:27]
+        else:   # the verb's own words first (connectives, keywords), then a core of generic tokens
+            own = [t for t in alpha if t not in GENERIC][:11]
+            k, a = 3, [""] + own + [t for t in CORE if t not in own]
         out.append(Ob("free/" + verb, h_free, dict(verb=verb, alpha=a, k=k),
-                      budget=300 if quick else 1500, per_path=10, hang_s=20, max_fail_keys=12,
+                      budget=300 if quick else 1500, per_path=60, hang_s=60, max_fail_keys=12,
                       bounds=dict(alphabet=a, tokens_after_verb="<= %d" % k)))
     n = 3 if quick else 4
     nopt = 1 + 3 * (n + 1)
     for o in range(nopt):
         out.append(Ob("relations/frames/first=%d" % o, h_frames, dict(n=n, first_opt=o),
-                      budget=400 if quick else 1500, per_path=10, hang_s=20, max_fail_keys=12,
+                      budget=400 if quick else 1500, per_path=60, hang_s=60, max_fail_keys=12,
                       bounds=dict(frames=n, relation_per_frame="none | in T | over T | under T",
                                   targets="every frame incl. itself + undefined")))
     out.append(Ob("relations/clones", h_clones, dict(m=1 if quick else 2),
-                  budget=300 if quick else 900, per_path=10, hang_s=20, max_fail_keys=12,
+                  budget=300 if quick else 900, per_path=60, hang_s=60, max_fail_keys=12,
                   bounds=dict(moot_framers=1 if quick else 2,
                               clone_line_per_moot="none | aux T as tag | aux T as mine",
                               targets="every moot incl. itself, an aux framer, the main framer, undefined")))
